@@ -319,8 +319,18 @@ def run_case(data):
             allw = [st[0] for st in streams.values()] + list(closed.values()) + list(reserved.values())
             if any(w + delta > TOP for w in allw):
                 continue
-            o = s.feed(wire.settings([(wire.S_INITIAL_WINDOW_SIZE, v)]))
-            r.step('recv SETTINGS iws', v, 'delta', delta, o.brief())
+            pairs = [(wire.S_INITIAL_WINDOW_SIZE, v)]
+            if ch.chance(96):
+                # the same SETTINGS frame also carries other settings (in front of it or behind it): MAX_FRAME_SIZE,
+                # changed or not, a stream limit, an unknown one
+                other = ch.pick([(wire.S_MAX_FRAME_SIZE, peer_frame), (wire.S_MAX_FRAME_SIZE, 32768),
+                                 (wire.S_MAX_CONCURRENT_STREAMS, 100), (0x4d, 1), (wire.S_HEADER_TABLE_SIZE, 4096)])
+                pairs.insert(ch.int(0, 1), other)
+                if other[0] == wire.S_MAX_FRAME_SIZE:
+                    peer_frame = other[1]
+                r.labels.add('iws-with-other-settings-in-one-frame')
+            o = s.feed(wire.settings(pairs))
+            r.step('recv SETTINGS', pairs, 'delta', delta, o.brief())
             if not o.ok:
                 r.violate('C03:settings-rejected:%s' % o.exc_name, '')
                 break
